@@ -190,8 +190,8 @@ def rule_queue(ctx: Ctx) -> None:
     ctx.ob("C19-2", "G2", sr, "timeout: in flight → pending front xor dead-lettered", not bad and not sr.is_generator,
            "schedule_redelivery acts only on an in-flight message not already scheduled; it either dead-letters it at the limit or puts it at the front of the queue, marks it and returns the redelivery event" + ("" if not bad else " — " + bad[0]))
     # the limit is compared the same way at both sites
-    a = [f.sig for s in walk_stmts(rj.node.body) if isinstance(s, ast.If) for f in atoms(s.test, True) if "delivery_count" in f.a + f.b]
-    b = [f.sig for s in walk_stmts(sr.node.body) if isinstance(s, ast.If) for f in atoms(s.test, True) if "delivery_count" in f.a + f.b]
+    a = [f.sig for n in rf.cfg.nodes if n.kind == "test" for f in atoms(n.ast, True) if "delivery_count" in f.a + f.b]
+    b = [f.sig for n in sf.cfg.nodes if n.kind == "test" for f in atoms(n.ast, True) if "delivery_count" in f.a + f.b]
     ok = a == [("lt", "msg.delivery_count", "self._max_redeliveries")] and b == [("le", "self._max_redeliveries", "msg.delivery_count")]
     ctx.ob("C19-2", "G4", sr, "limit direction", ok, f"reject requeues while delivery_count < max, schedule_redelivery dead-letters when delivery_count >= max: complementary tests (reject {a}, timeout {b})")
     # redelivery event: to the queue itself, carrying the id, at now + delay; handler delivers that id
@@ -395,7 +395,7 @@ def rule_group(ctx: Ctx) -> None:
     lp = [s for s in ra.node.body if isinstance(s, ast.For)]
     ok = len(lp) == 1 and unparse(lp[0].iter) == "enumerate(sorted_consumers)" and len(stmts_matching(ra, "base = n // c")) == 1 and len(stmts_matching(ra, "remainder = n % c")) == 1 \
         and len(stmts_matching(ra, "count = base + (1 if i < remainder else 0)")) == 1 and len(stmts_matching(ra, "result[name] = sorted_parts[idx:idx + count]")) == 1 \
-        and any(increment_of(s, "idx") == "other" or (isinstance(s, ast.AugAssign) and path_of(s.target) == "idx" and path_of(s.value) == "count") for s in lp[0].body) and len(stmts_matching(ra, "idx = 0")) == 1 \
+        and len([s for s in lp[0].body if isinstance(s, ast.AugAssign) and path_of(s.target) == "idx"]) == 1 and any(isinstance(s, ast.AugAssign) and path_of(s.target) == "idx" and isinstance(s.op, ast.Add) and path_of(s.value) == "count" for s in lp[0].body) and len(stmts_matching(ra, "idx = 0")) == 1 \
         and len(stmts_matching(ra, "n = len(sorted_parts)")) == 1 and len(stmts_matching(ra, "c = len(sorted_consumers)")) == 1
     ctx.ob("C19-7", "G2", ra, lp[0] if lp else None, ok, "RangeAssignment hands out consecutive disjoint slices [idx, idx+count) with idx advanced by count and the counts summing to n (base + one extra for the first n mod c consumers)")
     sa = prog.func(CG, "StickyAssignment.assign")
@@ -420,9 +420,46 @@ def run(ctx: Ctx) -> None:
     ctx.guarded(rule_topic)
     ctx.guarded(rule_log)
     ctx.guarded(rule_group)
-    for r, k in (("C19-1", 1), ("C19-2", 9), ("C19-3", 1), ("C19-4", 4), ("C19-5", 6), ("C19-6", 1), ("C19-7", 7), ("C19-8", 6)):
+    for r, k in (("C19-1", 1), ("C19-2", 9), ("C19-3", 1), ("C19-4", 4), ("C19-5", 5), ("C19-6", 1), ("C19-7", 7), ("C19-8", 6)):
         ctx.floor(r, k)
 
 
-MUTANTS = []
-REFACTORS = []
+MUTANTS = [
+    ("publish-queues-after-latency", MQ, ["        self._pending_queue.append(message_id)\n        self._messages_published += 1\n\n        # Small publish latency\n        yield 0.0001\n"], ["        self._messages_published += 1\n\n        # Small publish latency\n        yield 0.0001\n        self._pending_queue.append(message_id)\n"], "C19-2"),
+    ("deliver-in-flight-after-latency", MQ, ["        self._in_flight[message_id] = msg\n\n        # Track delivery latency", "        yield self._delivery_latency\n"], ["        # Track delivery latency", "        yield self._delivery_latency\n        self._in_flight[message_id] = msg\n"], "C19-2"),
+    ("deliver-counts-twice", MQ, "        msg.delivery_count += 1\n        msg.last_delivered_at = now", "        msg.delivery_count += 2\n        msg.last_delivered_at = now", "C19-2"),
+    ("deliver-no-stored-guard", MQ, "        if message_id not in self._messages:\n            return None\n\n        consumer = self._get_next_consumer()", "        consumer = self._get_next_consumer()", "C19-2"),
+    ("deliver-stale-stamp", MQ, "        delivery_event = Event(\n            time=self._clock.now if self._clock else Instant.Epoch,\n            event_type=\"message_delivery\",", "        delivery_event = Event(\n            time=now,\n            event_type=\"message_delivery\",", "C19-1"),
+    ("ack-keeps-in-flight", MQ, "        self._in_flight.pop(message_id, None)\n        self._messages.pop(message_id, None)\n        self._redelivery_scheduled.discard(message_id)\n\n        self._messages_acknowledged += 1", "        self._messages.pop(message_id, None)\n        self._redelivery_scheduled.discard(message_id)\n\n        self._messages_acknowledged += 1", "C19-2"),
+    ("reject-requeue-and-remove", MQ, "            msg.state = MessageState.PENDING\n            self._pending_queue.append(message_id)\n        else:", "            msg.state = MessageState.PENDING\n            self._pending_queue.append(message_id)\n            self._messages.pop(message_id, None)\n        else:", "C19-2"),
+    ("reject-dlq-keeps-stored", MQ, "                self._messages_dead_lettered += 1\n            self._messages.pop(message_id, None)", "                self._messages_dead_lettered += 1", "C19-2"),
+    ("reject-limit-inclusive", MQ, "        if requeue and msg.delivery_count < self._max_redeliveries:", "        if requeue and msg.delivery_count <= self._max_redeliveries:", "C19-2"),
+    ("reject-skips-dlq", MQ, "                self._dead_letter_queue.add_message(msg)\n                self._messages_dead_lettered += 1", "                self._messages_dead_lettered += 1", "C19-2"),
+    ("timeout-ignores-limit", MQ, "        if msg.delivery_count >= self._max_redeliveries:\n            # Dead letter\n            self.reject(message_id, requeue=False)\n            return None\n", "", "C19-2"),
+    ("timeout-requeues-at-back", MQ, "        self._pending_queue.appendleft(message_id)", "        self._pending_queue.append(message_id)", "C19-2"),
+    ("timeout-keeps-in-flight", MQ, "        msg.state = MessageState.PENDING\n        self._in_flight.pop(message_id, None)\n        self._pending_queue.appendleft(message_id)", "        msg.state = MessageState.PENDING\n        self._pending_queue.appendleft(message_id)", "C19-2"),
+    ("poll-takes-newest", MQ, "        message_id = self._pending_queue[0]", "        message_id = self._pending_queue[-1]", "C19-3"),
+    ("topic-snapshot-after-latency", TOPIC, ["        active_subscribers = [sub for sub in self._subscriptions.values() if sub.active]\n\n        for subscription in active_subscribers:\n            # Delivery latency\n            yield self._delivery_latency\n"], ["        yield self._delivery_latency\n        active_subscribers = [sub for sub in self._subscriptions.values() if sub.active]\n\n        for subscription in active_subscribers:\n"], "C19-4"),
+    ("topic-delivers-only-still-active", TOPIC, "        for subscription in active_subscribers:\n            delivery_event = Event(\n                time=now,", "        for subscription in active_subscribers:\n            if not subscription.active:\n                continue\n            delivery_event = Event(\n                time=now,", "C19-4"),
+    ("topic-duplicate-subscription", TOPIC, "        if subscriber in self._subscriptions:\n            # Reactivate existing subscription\n            self._subscriptions[subscriber].active = True\n        else:\n            self._subscriptions[subscriber] = Subscription(", "        if False:\n            pass\n        else:\n            self._subscriptions[subscriber] = Subscription(", "C19-4"),
+    ("log-watermark-before-offset", LOG, ["        record = Record(\n            offset=partition.high_watermark,", "        partition.records.append(record)\n        partition.high_watermark += 1"], ["        partition.high_watermark += 1\n        record = Record(\n            offset=partition.high_watermark,", "        partition.records.append(record)"], "C19-5"),
+    ("log-offset-from-length", LOG, "            offset=partition.high_watermark,", "            offset=len(partition.records),", "C19-5"),
+    ("log-partition-from-python-hash", LOG, "        pid = self._get_partition_for_key(key)", "        pid = hash(key) % self._num_partitions", "C19-5"),
+    ("log-retention-drops-newest", LOG, "                    partition.records = partition.records[excess:]", "                    partition.records = partition.records[:-excess]", "C19-5"),
+    ("log-read-exclusive", LOG, "            if rec.offset >= offset:", "            if rec.offset > offset:", "C19-5"),
+    ("commit-overwrites", CG, "                committed[pid] = max(committed.get(pid, 0), offset)", "                committed[pid] = offset", "C19-6"),
+    ("leave-forgets-offsets", CG, "            self._assignments.pop(consumer_name, None)\n            # Keep committed offsets for potential rejoin", "            self._assignments.pop(consumer_name, None)\n            self._committed_offsets.pop(consumer_name, None)", "C19-6"),
+    ("rebalance-before-delay", CG, "            self._joins += 1\n\n            yield self._rebalance_delay\n            self._rebalance()", "            self._joins += 1\n\n            self._rebalance()\n            yield self._rebalance_delay", "C19-7"),
+    ("rebalance-unsorted-members", CG, "        consumer_names = sorted(self._consumers.keys())\n        self._assignments", "        consumer_names = list(self._consumers.keys())\n        self._assignments", "C19-7"),
+    ("roundrobin-skips-when-many", CG, "            consumer = sorted_consumers[i % len(sorted_consumers)]\n            result[consumer].append(pid)", "            consumer = sorted_consumers[i % len(sorted_consumers)]\n            if len(result[consumer]) < 2:\n                result[consumer].append(pid)", "C19-7"),
+    ("range-overlapping-slices", CG, "            result[name] = sorted_parts[idx : idx + count]\n            idx += count", "            result[name] = sorted_parts[idx : idx + count]\n            idx += base", "C19-7"),
+    ("sticky-keeps-vanished-partitions", CG, "                kept = [p for p in self._previous[name] if p in all_parts]", "                kept = list(self._previous[name])", "C19-7"),
+    ("sticky-remembers-aliased-lists", CG, "        self._previous = {k: list(v) for k, v in result.items()}", "        self._previous = result", "C19-7"),
+    ("poll-reads-all-partitions", CG, "            assigned = self._assignments.get(consumer_name, [])\n            offsets = self._committed_offsets.get(consumer_name, {})", "            assigned = list(range(self._event_log.num_partitions))\n            offsets = self._committed_offsets.get(consumer_name, {})", "C19-7"),
+    ("commit-key-renamed-in-generator", CG, "                \"consumer_name\": consumer_name,\n                \"offsets\": offsets,", "                \"consumer_name\": consumer_name,\n                \"positions\": offsets,", "C19-8"),
+]
+REFACTORS = [
+    ("reject-branches-swapped", MQ, ["        if requeue and msg.delivery_count < self._max_redeliveries:\n            # Requeue for redelivery\n            msg.state = MessageState.PENDING\n            self._pending_queue.append(message_id)\n        else:\n            # Dead letter or discard\n            if self._dead_letter_queue is not None:\n                self._dead_letter_queue.add_message(msg)\n                self._messages_dead_lettered += 1\n            self._messages.pop(message_id, None)\n            self._redelivery_scheduled.discard(message_id)"],
+     ["        if not (requeue and msg.delivery_count < self._max_redeliveries):\n            if self._dead_letter_queue is not None:\n                self._dead_letter_queue.add_message(msg)\n                self._messages_dead_lettered += 1\n            self._messages.pop(message_id, None)\n            self._redelivery_scheduled.discard(message_id)\n        else:\n            msg.state = MessageState.PENDING\n            self._pending_queue.append(message_id)"]),
+    ("commit-max-args-swapped", CG, "                committed[pid] = max(committed.get(pid, 0), offset)", "                committed[pid] = max(offset, committed.get(pid, 0))"),
+]
